@@ -9,6 +9,7 @@ func verifHarnessC20() {
 	verifAssert(err == nil, "C20.open-err")
 	m := newVModel(len(kp.keys))
 	ops := vOpsFromMask(verifParam("ops"))
+	vPrefill(src, kp, m, "C20")
 	for step := 0; step < verifParam("k"); step++ {
 		src = vStep(src, opts, kp, m, ops, "C20")
 	}
